@@ -166,7 +166,7 @@ func classifyPPC(in, out string) string {
 		if math.IsInf(s, -1) && math.IsInf(ohi, 1) && oloB == 0 {
 			return "C10|ppc_fp128|negative-infinity-printed-as-positive"
 		}
-		if math.IsInf(s, 1) && math.IsInf(ohi, 1) && oloB == 0 && !canon {
+		if math.IsInf(s, 0) && ohi == s && oloB == 0 && !canon {
 			return "C10|ppc_fp128|non-canonical-pair|replaced-by-its-sum"
 		}
 		return ""
